@@ -196,3 +196,16 @@ CASES += [
     ("c_digitize", ["V"]), ("c_mask_assign", ["A"]), ("c_where_enum", ["A"]), ("c_hstack", ["V", "W"]), ("c_dot", ["A", "B"]), ("c_fill_diag", [4]),
     ("c_strided", ["A"]), ("c_enumerate_zip", ["V", "W"]), ("c_complex", ["A", "B"]), ("c_int_float", [6]), ("c_int_float", [7]),
 ]
+
+
+def c_builtin_slice(a, n):
+    # slice objects built by hand (what `a[..., i::n]` means), summed over the n interleaved sub-samplings
+    index = [slice(None)] * a.ndim
+    out = numpy.zeros((a.shape[0], a.shape[1] // n))
+    for i in range(n):
+        index[1] = slice(i, None, n)
+        out += a[tuple(index)]
+    return out + a[slice(1)].sum() + a[slice(0, 2), slice(1, 3)].sum()
+
+
+CASES += [("c_builtin_slice", ["A", 2]), ("c_builtin_slice", ["A", 1])]
